@@ -9,7 +9,8 @@
 (*   New            NewEconomicsData (+ the notifier's registration call    *)
 (*                  EpochConfirmed(current epoch = 0))                      *)
 (*   Epoch(e)       EpochConfirmed(e)                                        *)
-(*   Fee            CheckValidityTxValues, ComputeGasLimit,                 *)
+(*   Fee            (transactions and smart-contract results)               *)
+(*                  CheckValidityTxValues, ComputeGasLimit,                 *)
 (*                  SplitTxGasInCategories, ComputeMoveBalanceFee,          *)
 (*                  GasPriceForProcessing, ComputeTxFee                      *)
 (*   GasUsed        ComputeTxFeeBasedOnGasUsed at two gas-used amounts      *)
@@ -34,7 +35,8 @@ EXTENDS Integers, Sequences, TLC
 
 CONSTANTS Cfgs,        \* configuration records [minPrice, minLimit, perByte, maxGas, num, den, penEpoch, modEpoch, supply]
           Epochs,      \* epochs EpochConfirmed is called with
-          Txs,         \* transactions [price, gl, dl, value, bi]  (bi = cost of the built-in function called, 0 = none)
+          Txs,         \* transactions [price, gl, dl, value, bi, scr]  (bi = cost of the built-in function called, 0 = none;
+                       \* scr = the object is a smart-contract result, which the fee functions treat specially)
           GasUseds, Refunds, Balances,
           Kinds,       \* which query actions are explored: subset of {"Fee", "GasUsed", "Refund", "Balance"}
           KnownDefects,\* named deviations of the code from the intended design that are modelled (see DefectNames)
@@ -52,7 +54,7 @@ DefectNames == {"legacyGasUsedFee", "builtInAboveLimit"}
 (* the arithmetic, as coded *)
 
 MoveGas(tx)  == cfg.minLimit + tx.dl * cfg.perByte                   \* ComputeGasLimit
-MoveFee(tx)  == tx.price * MoveGas(tx)                                \* ComputeMoveBalanceFee (GasPriceForMove = price)
+MoveFee(tx)  == IF tx.scr THEN 0 ELSE tx.price * MoveGas(tx)          \* ComputeMoveBalanceFee (GasPriceForMove = price)
 PPDesign(tx) == IF fm THEN (tx.price * cfg.num) \div cfg.den ELSE tx.price   \* GasPriceForProcessing
 PPOk(tx, pp) == IF fm THEN pp <= tx.price /\ pp >= PPDesign(tx) - 1 /\ pp <= PPDesign(tx) + 1
                       ELSE pp = tx.price
@@ -63,7 +65,7 @@ ByteLen(n) == IF n = 0 THEN 0 ELSE 1 + ByteLen(n \div 256)
 \* CheckValidityTxValues, in the order of the code
 Valid(tx) ==
     IF cfg.minPrice > tx.price THEN "price"
-    ELSE IF tx.gl < MoveGas(tx) THEN "limit"
+    ELSE IF ~tx.scr /\ tx.gl < MoveGas(tx) THEN "limit"
     ELSE IF tx.gl >= cfg.maxGas THEN "maxgas"
     ELSE IF ByteLen(tx.value) > ByteLen(cfg.supply) THEN "oob"
     ELSE IF tx.value > cfg.supply THEN "big"
@@ -74,7 +76,8 @@ ProcGas(tx) == IF tx.gl < MoveGas(tx) THEN 0 ELSE tx.gl - MoveGas(tx)
 
 \* ComputeTxFee
 TxFee(tx, pp) ==
-    IF fm THEN IF tx.gl <= MoveGas(tx) THEN MoveFee(tx) ELSE MoveFee(tx) + pp * ProcGas(tx)
+    IF fm THEN IF tx.scr THEN pp * tx.gl                       \* ComputeFeeForProcessing(tx, gasLimit)
+               ELSE IF tx.gl <= MoveGas(tx) THEN MoveFee(tx) ELSE MoveFee(tx) + pp * ProcGas(tx)
     ELSE IF fp THEN tx.gl * tx.price
     ELSE MoveFee(tx)
 
@@ -128,9 +131,9 @@ BalanceOut(tx, pp, bal) ==
      feeAt |-> IF c[1] = "ok" THEN TxFee([tx EXCEPT !.gl = c[2]], pp) ELSE 0, pp |-> pp]
 
 \* domains of the calls: gas used within the limit, refund within the processing part of the fee
-GasUsedDom(tx, g1, g2) == g1 <= g2 /\ g2 <= tx.gl
-RefundDom(tx, pp, r)   == pp >= 1 /\ r >= 0 /\ (r = 0 \/ r <= TxFee(tx, pp) - MoveFee(tx))
-BalanceDom(tx, pp)     == pp >= 1 /\ tx.price >= 1
+GasUsedDom(tx, g1, g2) == ~tx.scr /\ g1 <= g2 /\ g2 <= tx.gl
+RefundDom(tx, pp, r)   == ~tx.scr /\ pp >= 1 /\ r >= 0 /\ (r = 0 \/ r <= TxFee(tx, pp) - MoveFee(tx))
+BalanceDom(tx, pp)     == ~tx.scr /\ pp >= 1 /\ tx.price >= 1
 
 -----------------------------------------------------------------------------
 (* actions *)
@@ -171,10 +174,11 @@ Queries ==
     \E tx \in Txs : LET pp == PPDesign(tx) IN
         \* fields a call does not read are pinned (sound reduction of the input space)
         \/ "Fee" \in Kinds /\ tx.bi = 0 /\ Fee(tx, FeeOut(tx, pp))
-        \/ "GasUsed" \in Kinds /\ tx.bi = 0 /\ tx.value = 0
+        \* the other calls are made for ordinary transactions only (see the domain note in docs/fees.md)
+        \/ "GasUsed" \in Kinds /\ ~tx.scr /\ tx.bi = 0 /\ tx.value = 0
               /\ \E g1, g2 \in GasUseds : GasUsed(tx, g1, g2, GasUsedOut(tx, pp, g1, g2))
-        \/ "Refund" \in Kinds /\ tx.value = 0 /\ \E r \in Refunds : pp >= 1 /\ Refund(tx, r, RefundOut(tx, pp, r))
-        \/ "Balance" \in Kinds /\ tx.bi = 0 /\ tx.gl = 0
+        \/ "Refund" \in Kinds /\ ~tx.scr /\ tx.value = 0 /\ \E r \in Refunds : pp >= 1 /\ Refund(tx, r, RefundOut(tx, pp, r))
+        \/ "Balance" \in Kinds /\ ~tx.scr /\ tx.bi = 0 /\ tx.gl = 0
               /\ \E b \in Balances : pp >= 1 /\ tx.price >= 1 /\ Balance(tx, b, BalanceOut(tx, pp, b))
 
 Fresh == hist[Len(hist)].a \in {"New", "Epoch"}     \* queries are leaves of the exploration (they change no state)
